@@ -254,11 +254,62 @@ def chooseUtxos (T : Tests) (P : Params) (s : Store) (tries : Int) : ChooseRes :
 /-- `out.Value = sum - amountSum` in makeBtcTx (int64 arithmetic). -/
 def change (sum amount : Int) : Int := sum - amount
 
-/-! ### Histories: deposits add an output to the unspent record, withdrawals run chooseUtxos -/
+/-! ### MultiSign (btc_handler.go): collecting the redeem-script signatures of a built withdrawal -/
+
+/-- A withdrawal transaction stored by makeBtcTx, waiting for signatures. -/
+structure Pending where
+  inputs : List Utxo
+  /-- outputs: value and whether the output pays the multisig's own witness script (the change output does; the
+      payment output does when the withdrawal address is that script) -/
+  outs : List (Nat × Bool)
+  /-- redeem-script keys that have signed (the keys of `MultiSignInfo`) -/
+  signers : List Nat
+deriving Repr
+
+/-- `getStxoAmts`: for every input delete the first spent-record entry with the same outpoint; `none` = not found. -/
+def removeInputs : List Utxo → List Utxo → Option (List Utxo)
+  | stxos, [] => some stxos
+  | stxos, i :: rest =>
+    match stxos.findIdx? (fun x => x.hash == i.hash && x.index == i.index) with
+    | none => none
+    | some k => removeInputs (stxos.eraseIdx k) rest
+
+inductive SignRes where
+  | errSigned                       -- "address %s already sign"
+  | errEnough                       -- "already enough signature"
+  | errStxo                         -- "txIn not found in stxos"
+  | errVerify                       -- signature verification failed
+  | pending (p : Pending)           -- recorded, more signatures needed: the records are untouched
+  | final (p : Pending) (s : Store) -- last signature: change outputs become unspent, the inputs leave the spent record
+deriving Repr
+
+/-- The outputs of the signed transaction that pay the multisig's witness script, as new unspent outputs
+    (`mk index value` builds the record: hash = id of the signed transaction). -/
+def newUtxos (mk : Nat → Nat → Utxo) (outs : List (Nat × Bool)) : List Utxo :=
+  outs.zipIdx.filterMap fun x => if x.1.2 then some (mk x.2 x.1.1) else none
+
+/-- One `MultiSign` call by redeem key `signer`; `required` = number of signatures the redeem script needs;
+    `sigOK` = verifySigs accepts the supplied signatures (external cryptography). -/
+def multiSign (required : Nat) (s : Store) (p : Pending) (signer : Nat) (sigOK : Bool) (mk : Nat → Nat → Utxo) : SignRes :=
+  if p.signers.contains signer then .errSigned
+  else if p.signers.length == required then .errEnough
+  else
+    match removeInputs s.stxos p.inputs with
+    | none => .errStxo
+    | some stxos' =>
+      if !sigOK then .errVerify
+      else
+        let p' := { p with signers := p.signers ++ [signer] }
+        if p'.signers.length != required then .pending p'
+        else .final p' { utxos := s.utxos ++ newUtxos mk p.outs, stxos := stxos' }
+
+/-! ### Histories: deposits add an output to the unspent record, withdrawals run chooseUtxos, completed signature
+    rounds add the change outputs -/
 
 inductive Ev where
   | deposit (u : Utxo)
   | withdraw (T : Tests) (P : Params) (tries : Int)
+  | finalize (inputs new : List Utxo)
 
 /-- One event on (store, selections made so far, oldest first). A failed withdrawal changes nothing. -/
 def stepEv (st : Store × List (List Utxo)) : Ev → Store × List (List Utxo)
@@ -267,12 +318,18 @@ def stepEv (st : Store × List (List Utxo)) : Ev → Store × List (List Utxo)
     match chooseUtxos T P st.1 tries with
     | .ok a s' => (s', st.2 ++ [a.sel])
     | _ => st
+  | .finalize inputs new =>
+    match removeInputs st.1.stxos inputs with
+    | some stxos' => ({ utxos := st.1.utxos ++ new, stxos := stxos' }, st.2)
+    | none => st
 
 def runHist (s : Store) (evs : List Ev) : Store × List (List Utxo) := evs.foldl stepEv (s, [])
 
+/-- the outputs that enter the unspent record during a history (given that its signature rounds complete) -/
 def deposits : List Ev → List Utxo
   | [] => []
   | .deposit u :: r => u :: deposits r
   | .withdraw .. :: r => deposits r
+  | .finalize _ new :: r => new ++ deposits r
 
 end Poly.Model.Btc
